@@ -302,7 +302,7 @@ class Gen:
         used.append(v)
         return v
 
-    def traj_spec(self, gid, first_of_file: bool, n=None, fs=None, ident=None, file=None):
+    def traj_spec(self, gid, first_of_file: bool, n=None, fs=None, ident=None, file=None, new_species=True):
         rng = self.rng
         g = self.groups[gid]
         fs = list(g['fs']) if fs is None else fs
@@ -345,7 +345,7 @@ class Gen:
                 for f in sf[1:]:
                     sp[f] = sorted(rng.sample(uni, rng.randint(lo, len(uni))), key=G.SPECIES_NAMES.index)
             outside = [x for x in G.SPECIES_NAMES if x not in uni]
-            if not first_of_file and outside and rng.random() < self.cfg.get('new_species_p', 0):
+            if new_species and not first_of_file and outside and rng.random() < self.cfg.get('new_species_p', 0):
                 f = rng.choice(sf)
                 sp[f] = sorted(sp[f] + [rng.choice(outside)], key=G.SPECIES_NAMES.index)
             spec['species'] = sp
@@ -613,8 +613,8 @@ class Gen:
         name = f'g{gid}_{i}.nc'
         g['files'].append(name)
         fs = list(g['fs'])
-        a = [self.traj_spec(gid, first_of_file=(k == 0), fs=fs) for k in range(rng.randint(1, 3))]
-        b = self.traj_spec(gid, first_of_file=True, fs=fs)
+        a = [self.traj_spec(gid, first_of_file=(k == 0), fs=fs, new_species=False) for k in range(rng.randint(1, 3))]
+        b = self.traj_spec(gid, first_of_file=True, fs=fs, new_species=False)
         return {'op': 'dup_create', 'file': name, 'group': gid, 'base_fs': fs, 'a_trajs': a, 'b_traj': b,
                 'cache': self.pick_cache()}
 
